@@ -776,22 +776,42 @@ func concurrentAccessCase(run *vh.Run, ci int, rng *vh.Rng) {
 		run.Drop("concurrent access: constructor rejected the configuration")
 		return
 	}
-	remotes := []string{"127.0.0.1:4711", "8.8.8.8:53", "[2001:4860:4860::8888]:443", "[::1]:9"}
+	remotes := []string{"127.0.0.1:4711", "8.8.8.8:53", "[2001:4860:4860::8888]:443", "[::1]:9", "[::2]:9", "[::ffff:8.8.8.8]:53", "127.0.0.2:4711", "[2001:4860:4860::8844]:443"}
 	for k := 0; k < rng.Range(2, 8); k++ {
 		r, _, _ := genRemote(rng, c, false)
 		remotes = append(remotes, r)
 	}
+	// the answer for an origin asked alone: from a predicate of its own, so that nothing asked before can matter
 	alone := map[string]bool{}
 	nAllowed := 0
 	for _, r := range remotes {
 		ok := false
 		func() {
 			defer func() { recover() }()
-			ok = fn(r)
+			if f1, err := api.VerifIPAccessControlFunc(c.WL, c.LAN); err == nil {
+				ok = f1(r)
+			}
 		}()
 		alone[r] = ok
 		if ok {
 			nAllowed++
+		}
+	}
+	// one predicate serves the whole life of the server: first the origins one after the other (what was asked before
+	// must not matter), then all at once
+	for pass := 0; pass < 2; pass++ {
+		for _, r := range remotes {
+			got := false
+			func() {
+				defer func() { recover() }()
+				got = fn(r)
+			}()
+			if got != alone[r] {
+				run.Violate(ci, "access-decision-depends-on-earlier-requests", map[string]string{"admitted": strconv.FormatBool(got)},
+					map[string]interface{}{"whitelist": c.WL, "allowed_lan": c.LAN, "remote_addr": r, "answer_from_a_fresh_predicate": alone[r], "answer_after_other_requests": got, "asked_before": remotes})
+				run.Case(vh.HashS("conc-access-history", strings.Join(c.WL, "\x00"), strings.Join(remotes, "|")), true)
+				return
+			}
 		}
 	}
 	if nAllowed == 0 || nAllowed == len(remotes) {
